@@ -7,6 +7,8 @@ Line-protocol driver for the policy / mutual-close model (properties C05 and C07
 All tokens are decimal integers.
   policy  <onchain> <minDelay> <maxDelay> <maxChan> <eps> <maxHtlcs> <maxHtlcValue> <useChain> <minFee> <maxFee> <maxRoutingFee> <warnmask>
   setup   <outbound> <value> <pushMsat> <holderDelay> <cpDelay> <ctype 0..3> <upfrontSid (0=none)> <upfrontSpendable> <upfrontAllowlisted>
+  allow <sid>* | allow_add <sid>* | allow_rm <sid>*       (allowlist set / add / remove; model: no-op, the flags on the close ops follow)
+  restart                                                 (node restored from the real persister; state digest must be unchanged)
   chain   <height> <fundingDepth> <closingDepth>          (monitor state forced; for u32-edge heights)
   blk     <kind 0|1|2> <height> <fundingDepth> <closingDepth>   (a real block through the tracker: unrelated /
                                                           with the funding tx / with a spend of the funding outpoint)
@@ -138,6 +140,10 @@ def step (st : St) (toks : List String) : St × String :=
             maxRoutingFeeMsat := mrf, enforceBalance := false, filter := filterOfMask mask }
         ({ st with policy := { raw with onchain := b oc } }, "ok")
       | "allow", _ => (st, "ok")
+      | "allow_add", _ => (st, "ok")
+      | "allow_rm", _ => (st, "ok")
+      -- the node is dropped and restored from its persister: the enforcement state must come back as it was
+      | "restart", [] => (st, if st.ready then "ok " ++ digest st.es else "ok")
       | "setup", [ob, v, push, hd, cd, ct, up, ups, upa] =>
         if st.ready then (st, "already") else
         match ctypeOf ct with
@@ -170,7 +176,9 @@ def step (st : St) (toks : List String) : St × String :=
           match htlcs? 1000 rest with
           | some (recv, []) =>
             let i : Info := Info.new true th tc off recv fr
-            applyRes st (signCounterparty st.policy st.setup st.chain st.es n (2 * n + pv % 2) i)
+            -- phase 1 is used exactly when requested (pv ≥ 2) and the harness can build the transaction
+            let ph1 := decide (pv ≥ 2) && buildable st.setup n th tc (off ++ recv)
+            applyRes st (signCounterparty st.policy st.setup st.chain st.es n (2 * n + pv % 2) i ph1)
           | _ => (st, "bad-op")
       | "hold", n :: fr :: th :: tc :: rest =>
         if !st.ready then (st, "nochan") else
